@@ -14,7 +14,7 @@ from model import Opt, Schema
 PID = 'C17'
 R1 = Schema('R1', [Opt('int', 'i', '', 0), Opt('func', 'include', '', None, 'i'),
                    Opt('sec', 'sec', '', sub=[Opt('func', 'include', '', None, 'i'), Opt('int', 'i', '', 0)])])      # include from inside a section that exists since cfg_init
-POOL = ['d1', 'd2', 'nodir', 'd1', '~/d3', '~alice/d4']          # index 3 = d1 again
+POOL = ['d1', 'd2', 'nodir', 'd1', '~/d3', '~alice/d4', 'd1/sub']          # index 3 = d1 again; d1/sub: a directory whose name begins with another one's
 DIRS = ['d1', 'd2', 'h/me/d3', 'h/alice/d4']
 MARK = {'d1': 1, 'd2': 2, 'h/me/d3': 3, 'h/alice/d4': 4}
 STATES = ['absent', 'file', 'dir']
